@@ -268,6 +268,10 @@ func runSmall(c *common.Ctx, res *common.Result, col *collector) {
 	for _, r := range cRecvs {
 		for _, o := range cOps {
 			specs = append(specs, spec{Part: "C", C: &cSpec{Recv: r.Name, Op: o.Name}})
+			if o.deferrable() {
+				specs = append(specs, spec{Part: "C", C: &cSpec{Recv: r.Name, Op: o.Name, Site: "defer-func"}})
+				specs = append(specs, spec{Part: "C", C: &cSpec{Recv: r.Name, Op: o.Name, Site: "defer-top"}})
+			}
 		}
 	}
 	for _, f := range dFuncs {
